@@ -88,6 +88,15 @@ def main_c19(tier):
                            "format": c.fmt, "file_len": L, "opts": c.opts})
         for part in pmap(dc.c19_prefix_chunk, tasks):
             sweep_recs.extend(part)
+    # ---- header-field value sweep (an enumeration; both tiers)
+    field_recs = []
+    for part in pmap(dc.c19_field_chunk, dc.field_sweep_tasks(tier)):
+        field_recs.extend(part)
+    sweeps.append({"what": "every header byte of kind magic/size/flag/page%s of each small sweep "
+                           "file set to %s" % (", palette" if tier == "thorough" else "",
+                                               "every value 0..255" if tier == "thorough"
+                                               else "16 boundary values"),
+                   "runs": len(field_recs)})
     # ---- reduce
     viol = [r for r in recs if r["verdict"] == "violation"]
     known = sorted(set(r["verdict"][6:] for r in recs if r["verdict"].startswith("known:")))
@@ -107,15 +116,28 @@ def main_c19(tier):
                 raise HarnessFailure("replay %s did not reproduce (rc=%s)\n%s\n%s" %
                                      (m["replay"], rc, out[-400:], err[-400:]))
             reported.append(m)
-    for r in sv[:dc.MAX_REPORTED]:
-        # sweep violations: a truncation of a fixed minimal file is already minimal
+    fv = [r for r in field_recs if r["verdict"] == "violation"]
+    known += [k for k in sorted(set(r["verdict"][6:] for r in field_recs
+                                     if r["verdict"].startswith("known:"))) if k not in known]
+    seen_fv = set()
+    fv1 = []
+    for r in fv:
+        if (r["tool"], r["cls"], r["k"]) not in seen_fv:
+            seen_fv.add((r["tool"], r["cls"], r["k"]))
+            fv1.append(r)
+    for r in (sv[:dc.MAX_REPORTED] + fv1[:dc.MAX_REPORTED]):
+        # sweep violations: one fault on a fixed small file is already minimal
         case = dc.minimal_cases()[r["ci"]]
-        plan = [{"kind": "truncate", "at": r["k"]}]
+        if "v" in r:
+            plan = [{"kind": "set", "at": r["k"], "val": r["v"]}]
+        else:
+            plan = [{"kind": "truncate", "at": r["k"]}]
         env = Env() if r["env"][0] == "path" else Env("dash", "dash", "small", "small", r["k"], r["k"])
         data, dmg, eff, run, verdict, cls = dc.c19_execute(case, plan, env)
         doc = dc.c19_replay_doc(seed, -1, case, plan, env, data, run, cls)
         from .runner import write_replay
-        path = write_replay("C19", "%d-prefix-%s-%d" % (seed, case.fmt, r["k"]), doc)
+        path = write_replay("C19", "%d-%s-%s-%d%s" % (seed, "field" if "v" in r else "prefix", case.fmt,
+                                                       r["k"], ("=%d" % r["v"]) if "v" in r else ""), doc)
         reported.append({"index": -1, "sig": [case.tool, cls, run.signature_site()], "replay": path,
                          "digest": run.digest(), "plan": plan})
     # ---- determinism self-check and fidelity
@@ -172,7 +194,7 @@ def main_c19(tier):
                             "env": env.to_json(), "outcome": r["cls"], "exit": r["detail"],
                             "first_anomalous_read": r["site"]})
     coverage = {
-        "evaluations": len(recs) + len(sweep_recs),
+        "evaluations": len(recs) + len(sweep_recs) + len(field_recs),
         "distinct_nontrivial": nontriv,
         "rule": "one evaluation = one simulated decoder process on a damaged input; a case is "
                 "non-trivial when at least one fault changed the bytes AND the tool observed it "
@@ -191,14 +213,15 @@ def main_c19(tier):
         "reach_probes": probes,
         "components": COMPONENTS,
         "exhaustive_sweeps": sweeps,
-        "exhaustive_sweep_runs": len(sweep_recs),
+        "exhaustive_sweep_runs": len(sweep_recs) + len(field_recs),
         "exhaustive": False,
         "determinism_selfcheck_runs": det,
         "traces_validated_against_impl": fid_n,
         "known_findings_hit": known,
-        "violation_signatures": len(sigs) + len(sv),
+        "violation_signatures": len(sigs) + len(sv) + len(fv1),
         "workers": int(os.environ.get("VERIF_WORKERS", "16")),
-        "report_digest": digest([r["digest"] for r in recs], [r["digest"] for r in sweep_recs]),
+        "report_digest": digest([r["digest"] for r in recs], [r["digest"] for r in sweep_recs],
+                                [r["digest"] for r in field_recs]),
     }
     write_evidence("C19", tier, seed, "fault_enumeration", coverage, wall, len(reported), [
         "damage is to stored/in-flight bytes only; I/O errors (EIO, ENOSPC, EPIPE, EINTR) are "
@@ -208,7 +231,7 @@ def main_c19(tier):
     ])
     say("REPORT-DIGEST C19 %s" % coverage["report_digest"])
     say("C19 %s: %d runs (+%d sweep), %d violation signature(s), known=%s, %.1fs" %
-        (tier, len(recs), len(sweep_recs), len(reported), known, wall))
+        (tier, len(recs), len(sweep_recs) + len(field_recs), len(reported), known, wall))
     return EXIT_VIOLATION if reported else EXIT_OK
 
 
